@@ -110,6 +110,11 @@ func (p *ProposerConfig) UnmarshalJSON(input []byte) error {
 		copy(p.Validator[:], tmp)
 	} else {
 		proposer := data.Proposer
+		if strings.Contains(proposer, "|") {
+			// Alternation binds more loosely than the anchors, so group the expression
+			// to have them apply to every alternative.
+			proposer = fmt.Sprintf("^(?:%s)$", strings.TrimSuffix(strings.TrimPrefix(proposer, "^"), "$"))
+		}
 		if !strings.HasPrefix(proposer, "^") {
 			proposer = fmt.Sprintf("^%s", proposer)
 		}
